@@ -55,7 +55,7 @@ CHECKS = {
              "recovery); the mutation event sequence of each operation is compared with the micro-step table.",
         design="7/C04", technique="Coq invariant proof over persisted records + crash-point enumeration on the real code",
         note="Process death, not power loss (Badger SyncWrites=false; assumption on Badger/file-system atomicity per call, DESIGN "
-             "section 3). Individual content-file writes are not separate crash points in this revision. " + NOTE_COMMON),
+             "section 3). " + NOTE_COMMON),
     "C05": dict(
         text="Theorems (Coq): for every sequential history with Close/Open at any positions the faithful model equals the abstract "
              "machine, whose Reopen keeps every committed value and forgets open transactions (C05_histories_with_reopen, "
